@@ -27,7 +27,7 @@ use std::time::Duration;
 pub static INFO: PropInfo = PropInfo {
     id: "C17",
     level: "fault_enumeration",
-    rule: "two kinds of executions. (a) TAMPER (enumerated; exhaustive=true refers to this: for every sample datagram ALL single-bit positions and ALL truncation lengths 0..len-1 are presented): per run one genuine sample of every datagram kind (request, challenge, response, keep-alive both directions, payload both directions with a seeded length 0..1300, denied, disconnect both directions) is captured from a live handshake/session and every modification is presented to the endpoint in exactly the state in which the genuine datagram is accepted (proved afterwards by presenting the genuine one and seeing its effect); each must produce no result and leave the observable snapshot identical (server: client ids, addresses, user data, time since last packet, half-open set; client: state, reason, time since last packet); for the unsealed request the prefix byte's unused high nibble is excluded. Every sealed sample must also fail to open under another key and under another protocol id (crate codec) and a request must be ignored by servers with another private key / protocol id. Token: every single-bit flip of the 1024 sealed bytes, the protocol id and the expiry of a serialized ConnectToken goes through ConnectToken::read -> NetcodeClient::new -> update -> server.process_packet and through the private-token decoder and must yield neither a decoded token nor a reply nor a half-open entry. (b) NONCE TABLE: honest multi-client histories against one server (1-3 slots, 3-7 clients, seeded loss and duplication so that requests are retried and re-challenged, denials on a full server, keep-alives, payloads both ways, disconnects by either side, reconnects with fresh tokens, fail-over to a second server address, tokens listing two addresses of the same server so that a client denied or unanswered at the first is admitted at the second with the same token - the server side of a token stops being recorded once the server opens a second session for it): every datagram returned by any NetcodeServer / NetcodeClient call is attributed to a key by opening it with the token keys the harness minted, and entered as (key, sequence from the prefix) -> bytes; two different byte strings under one (key, sequence) refute the property, as do two different challenge blobs with one token_sequence. One evaluation = one presented modification (a) or one recorded datagram (b); non-trivial = oracle evaluated on it; distinct = (sample hash, modification) resp. (history seed, datagram hash).",
+    rule: "two kinds of executions. (a) TAMPER (enumerated; exhaustive=true refers to this: for every sample datagram ALL single-bit positions and ALL truncation lengths 0..len-1 are presented): per run one genuine sample of every datagram kind (request, challenge, response, keep-alive both directions, payload both directions with a seeded length 0..1300, denied, disconnect both directions) is captured from a live handshake/session and every modification is presented to the endpoint in exactly the state in which the genuine datagram is accepted (proved afterwards by presenting the genuine one and seeing its effect); each must produce no result and leave the observable snapshot identical (server: client ids, addresses, user data, time since last packet, half-open set; client: state, reason, time since last packet); for the unsealed request the prefix byte's unused high nibble is excluded. Every sealed sample must also fail to open under another key and under another protocol id (crate codec) and a request must be ignored by servers with another private key / protocol id. Token: every single-bit flip of the 1024 sealed bytes, the protocol id and the expiry of a serialized ConnectToken goes through ConnectToken::read -> NetcodeClient::new -> update -> server.process_packet and through the private-token decoder and must yield neither a decoded token nor a reply nor a half-open entry. (b) NONCE TABLE: honest multi-client histories against one server (1-3 slots, 3-7 clients, seeded loss and duplication so that requests are retried and re-challenged, denials on a full server, keep-alives, payloads both ways, disconnects by either side, reconnects with fresh tokens, fail-over to a second server address, tokens listing two addresses of the same server so that a client denied or unanswered at the first is admitted at the second with the same token - the server side of a token stops being recorded once the server opens a second session for it): every datagram returned by any NetcodeServer / NetcodeClient call is attributed to a key by opening it with the token keys the harness minted, and entered as (key, sequence from the prefix) -> bytes; two different byte strings under one (key, sequence) refute the property, as do two different challenge blobs with one token_sequence; every recorded datagram is also opened with an independent ChaCha20-Poly1305 (netcode 1.02 framing: nonce = 4 zero bytes || LE sequence) to establish the nonce it was REALLY sealed with (normally that of its announced sequence, otherwise searched among truncations of it and the other sequences of that key) and entered in a second ledger keyed by (key, real nonce). One evaluation = one presented modification (a) or one recorded datagram (b); non-trivial = oracle evaluated on it; distinct = (sample hash, modification) resp. (history seed, datagram hash).",
     assumptions: &[
         "ChaCha20-Poly1305 / XChaCha20-Poly1305 themselves are not under test; the nonce is assumed to be the sequence number announced in the prefix (that it really is bound is what the bit flips of the sequence bytes test)",
         "one connect token = one connection attempt and the session that follows; reconnects use fresh tokens (reuse of a token for a second session is outside the statement)",
@@ -53,6 +53,7 @@ pub static INFO: PropInfo = PropInfo {
         ("hist.request_retries", 20),
         ("hist.rechallenges", 20),
         ("hist.denied", 10),
+        ("nonce.reference_open_ok", 1000),
         ("hist.admitted_after_denial_same_token", 5),
         ("hist.keepalive_srv", 200),
         ("hist.keepalive_cli", 200),
@@ -114,9 +115,9 @@ fn failover_run(ctx: &Ctx, out: &mut Outcome, run_seed: u64, r: &mut Rng) {
     };
     let dt = Duration::from_millis(*r.pick(&[50u64, 100, 250]));
     let mut tables = [
-        Table { seen: HashMap::new(), blobs: HashMap::new(), log: Vec::new() },
-        Table { seen: HashMap::new(), blobs: HashMap::new(), log: Vec::new() },
-        Table { seen: HashMap::new(), blobs: HashMap::new(), log: Vec::new() },
+        Table { seen: HashMap::new(), blobs: HashMap::new(), log: Vec::new(), real: HashMap::new(), unverifiable: 0 },
+        Table { seen: HashMap::new(), blobs: HashMap::new(), log: Vec::new(), real: HashMap::new(), unverifiable: 0 },
+        Table { seen: HashMap::new(), blobs: HashMap::new(), log: Vec::new(), real: HashMap::new(), unverifiable: 0 },
     ];
     let lose_responses_to_s1 = true;
     let mut reached_second = false;
@@ -130,7 +131,10 @@ fn failover_run(ctx: &Ctx, out: &mut Outcome, run_seed: u64, r: &mut Rng) {
             return None; // not sealed
         }
         out.eval(mix(&[run_seed, which as u64, crate::rng::fnv1a(bytes)]), true);
-        tables[which].enter(out, 0, server, seq, &p, bytes, tick)
+        if let Some(v) = tables[which].enter(out, 0, server, seq, &p, bytes, tick) {
+            return Some(v);
+        }
+        tables[which].enter_real(out, 0, server, seq, protocol, k, bytes, tick)
     };
     for tick in 0..400u64 {
         s1.update(dt);
@@ -644,6 +648,10 @@ struct Table {
     seen: HashMap<(usize, bool), HashMap<u64, (Vec<u8>, &'static str, u64)>>,
     blobs: HashMap<u64, Vec<u8>>,
     log: Vec<Value>,
+    /// (party, emitted by server?) -> sequence whose standard nonce really opens the datagram -> (bytes, announced sequence)
+    real: HashMap<(usize, bool), HashMap<u64, (Vec<u8>, u64)>>,
+    /// datagrams that open under no candidate nonce: the ledger cannot vouch for them
+    unverifiable: u64,
 }
 
 impl Table {
@@ -682,6 +690,53 @@ impl Table {
     }
 }
 
+impl Table {
+    /// Establishes, with an independent ChaCha20-Poly1305 (nsim::ref_open*), which nonce the datagram was really
+    /// sealed with - normally the standard nonce of its announced sequence - and enters it in the real-nonce
+    /// ledger. Two different datagrams under one (key, real nonce) refute the property even when their announced
+    /// sequence numbers differ.
+    #[allow(clippy::too_many_arguments)]
+    fn enter_real(&mut self, out: &mut Outcome, party: usize, server: bool, seq: u64, protocol: u64, key: &[u8; 32], bytes: &[u8], tick: u64) -> Option<(String, String, Value)> {
+        let nonce_seq = if nsim::ref_open(bytes, protocol, key).is_some() {
+            out.count("nonce.reference_open_ok");
+            seq
+        } else {
+            let mut cands: Vec<u64> = vec![seq & 0xFFFF_FFFF, seq & 0xFFFF_FFFF_FFFF, seq & 0x7FFF_FFFF_FFFF_FFFF, seq >> 32, seq.swap_bytes(), seq.wrapping_add(1), seq.wrapping_sub(1), 0];
+            if let Some(m) = self.seen.get(&(party, server)) {
+                cands.extend(m.keys().copied());
+            }
+            match cands.into_iter().find(|c| *c != seq && nsim::ref_open_with_nonce(bytes, protocol, key, *c).is_some()) {
+                Some(c) => {
+                    out.count("nonce.real_differs_from_sequence");
+                    c
+                }
+                None => {
+                    self.unverifiable += 1;
+                    return None;
+                }
+            }
+        };
+        let m = self.real.entry((party, server)).or_default();
+        match m.get(&nonce_seq) {
+            None => {
+                m.insert(nonce_seq, (bytes.to_vec(), seq));
+                None
+            }
+            Some((old, _)) if old == bytes => None,
+            Some((old, old_seq)) => {
+                let who = if server { "server" } else { "client" };
+                let sig = format!("C17/nonce-reuse/{}/real-nonce", who);
+                let detail = format!(
+                    "the {} sealed two different datagrams of token #{} with the same AEAD nonce (the standard nonce of sequence {:#x}): one announces sequence {:#x} ({} bytes), the other {:#x} ({} bytes, tick {}); established by opening both with an independent ChaCha20-Poly1305",
+                    who, party, nonce_seq, old_seq, old.len(), seq, bytes.len(), tick
+                );
+                let w = json!({"first": dg_json(old), "second": dg_json(bytes), "real_nonce_sequence": format!("{:#x}", nonce_seq), "token": party, "emitter": who, "log_tail": self.log});
+                Some((sig, detail, w))
+            }
+        }
+    }
+}
+
 fn history_run(ctx: &Ctx, out: &mut Outcome, run_seed: u64, r: &mut Rng) {
     // "race": a one-slot server with two addresses and clients that arrive together holding tokens for both addresses:
     // both are challenged while a slot is free, one response is admitted, the other is denied at the response step,
@@ -702,6 +757,8 @@ fn history_run(ctx: &Ctx, out: &mut Outcome, run_seed: u64, r: &mut Rng) {
         seen: HashMap::new(),
         blobs: HashMap::new(),
         log: Vec::new(),
+        real: HashMap::new(),
+        unverifiable: 0,
     };
     let mut c2s: Vec<(usize, Vec<u8>)> = Vec::new();
     let mut s2c: Vec<(SocketAddr, Vec<u8>)> = Vec::new();
@@ -829,6 +886,10 @@ fn history_run(ctx: &Ctx, out: &mut Outcome, run_seed: u64, r: &mut Rng) {
                             if let Some(v) = table.enter(out, i, false, seq, &pk, &b, tick) {
                                 violation!(v);
                             }
+                            let ck = p.cli.minted.token.client_to_server_key;
+                            if let Some(v) = table.enter_real(out, i, false, seq, protocol, &ck, &b, tick) {
+                                violation!(v);
+                            }
                             out.eval(mix(&[0x1b, run_seed, fnv1a(&b)]), true);
                         }
                         None if b.len() < 18 => out.count("nonce.unopenable_17_byte_datagram_F15"),
@@ -933,6 +994,10 @@ fn history_run(ctx: &Ctx, out: &mut Outcome, run_seed: u64, r: &mut Rng) {
                     if let Some(v) = table.enter(out, i, true, seq, &pk, &b, tick) {
                         violation!(v);
                     }
+                    let sk = parties[i].cli.minted.token.server_to_client_key;
+                    if let Some(v) = table.enter_real(out, i, true, seq, protocol, &sk, &b, tick) {
+                        violation!(v);
+                    }
                     out.eval(mix(&[0x1c, run_seed, fnv1a(&b)]), true);
                     break;
                 }
@@ -958,6 +1023,9 @@ fn history_run(ctx: &Ctx, out: &mut Outcome, run_seed: u64, r: &mut Rng) {
                 let _ = p.cli.process(&b);
             }
         }
+    }
+    if table.unverifiable > 0 {
+        return out.inconclusive(&format!("C17 history: {} sealed datagrams open under the library's decoder but under no candidate nonce of the independent reference: the nonce ledger cannot vouch for them", table.unverifiable));
     }
     out.add("nonce.keys", table.seen.len() as u64);
     let _ = parties.iter().filter(|p| p.reconnect_of).count();
